@@ -274,7 +274,8 @@ def M(m):
 
 
 LONG = 768          # 256 codons: below this the dtype variants provably coincide (translate_dtype_pinned_guarded)
-COMPRESS = 3000     # longer periodic strings are rendered as firstn n (concat (repeat unit k))
+HEAVY = 3000        # terms on sequences longer than this are evaluated one per coqc process
+COMPRESS = 200      # longer periodic strings are rendered as firstn n (concat (repeat unit k)): long list literals elaborate slowly
 
 
 def expand(c):
@@ -396,7 +397,7 @@ def run_model(cases):
         t = coq_terms(c)
         spans.append((len(terms), [tag for tag, _ in t]))
         terms += [x for _, x in t]
-        heavy += [("n" in c and c["n"] > COMPRESS) or any(n > COMPRESS for _, n, _ in c.get("useqs", []))] * len(t)
+        heavy += [("n" in c and c["n"] > HEAVY) or any(n > HEAVY for _, n, _ in c.get("useqs", []))] * len(t)
     light_idx = [i for i, h in enumerate(heavy) if not h]
     heavy_idx = [i for i, h in enumerate(heavy) if h]
     imports = ["Model.GeneticCode", "Model.GeneticCodeRun"]
@@ -456,9 +457,11 @@ def exhaustive_block(tier, widen=False):
             for minus in (False, True):
                 cases.append(dict(k="codontable", v=v, id=cid, minus=minus, block="codon-table"))
             cases.append(dict(k="codeinfo", v=v, id=cid, block="codon-table"))
-        if tier == "thorough" or cid in (1, 2, 4, 11, 31):
-            cases.append(dict(k="degen_codons", id=cid, syms="ACGTRYSWKMBDHVN" if tier == "thorough" or cid == 1 else "ACGTRYN",
-                              block="degenerate-codons"))
+        # old Sequence.get_translation costs ~3 ms per codon: all 15^3 codons for code 1 in the thorough tier only
+        if tier == "thorough":
+            cases.append(dict(k="degen_codons", id=cid, syms="ACGTRYSWKMBDHVN" if cid == 1 else "ACGTRYNS", block="degenerate-codons"))
+        elif cid in (1, 2, 4, 11, 31):
+            cases.append(dict(k="degen_codons", id=cid, syms="ACGTRYN" if cid == 1 else "AGTRYN", block="degenerate-codons"))
     # __getitem__: case, U, wrong lengths, non-canonical
     for cid in (IDS if tier == "thorough" else IDS[:4]):
         for v in VS:
@@ -493,10 +496,11 @@ def exhaustive_block(tier, widen=False):
     # dtype boundaries of the k-mer index array: 255 / 256 / 257 codons in every frame, both strands,
     # every entry point (finding C12-4); thorough: the uint16 -> uint32 boundary at 65536 codons
     unit = "ATGGCCAAGTTTGACTGGTATCCGTAC"   # 9 sense codons in every code's frame 0? (content is irrelevant to the oracle)
-    for n in range(764, 774):
-        for v in VS:
-            cases.append(dict(k="allframes", v=v, id=1, unit=unit, n=n, block="dtype-boundary"))
-    for cid in (2, 11):
+    for n in (range(764, 774) if tier == "thorough" else range(765, 772)):
+        cases.append(dict(k="allframes", v="new", id=1, unit=unit, n=n, block="dtype-boundary"))
+        if tier == "thorough" or n in (767, 768, 769):
+            cases.append(dict(k="allframes", v="old", id=1, unit=unit, n=n, block="dtype-boundary"))
+    for cid in ((2, 11) if tier == "thorough" else (2,)):
         for n in (767, 768, 770):
             cases.append(dict(k="allframes", v="new", id=cid, unit=unit, n=n, block="dtype-boundary"))
     for s0 in ("ATGAAACCCT", "ATGGGGTAACAT", "AAA", "ATGTAAC"):
@@ -512,15 +516,19 @@ def exhaustive_block(tier, widen=False):
     amb = (unit[:11] + "N" + unit[12:20] + "-" + unit[21:])
     cases.append(dict(k="allframes", v="new", id=1, unit=amb, n=770, block="dtype-boundary"))
     sense = "ATGGCCAAG"
+    # the new-style entry points go through translate; the old ones do not depend on the dtype (one long case each)
     for ncod in (255, 256, 257):
-        for tail in ("", "TAA", "TAAC"):
-            for kind in (0, 1, 5, 6):
+        for tail in (("", "TAA", "TAAC") if tier == "thorough" or ncod == 256 else ("TAA",)):
+            for kind in (1, 5):
                 cases.append(dict(k="gettrans", kind=kind, id=1, useqs=[[sense, 3 * ncod, tail]], block="dtype-boundary"))
-        for kind in (2, 3):
-            cases.append(dict(k="gettrans", kind=kind, id=1, useqs=[[sense, 3 * ncod, "TAA"], [sense, 9, ""]], block="dtype-boundary"))
-        for kind in (4, 7):
-            cases.append(dict(k="gettrans", kind=kind, id=1, useqs=[[sense, 3 * ncod, "TAA"], [sense, 3 * ncod, "AAA"]],
-                              block="dtype-boundary"))
+        cases.append(dict(k="gettrans", kind=3, id=1, useqs=[[sense, 3 * ncod, "TAA"], [sense, 9, ""]], block="dtype-boundary"))
+        if tier == "thorough" or ncod == 256:
+            for kind in (0, 6):
+                cases.append(dict(k="gettrans", kind=kind, id=1, useqs=[[sense, 3 * ncod, "TAA"]], block="dtype-boundary"))
+            cases.append(dict(k="gettrans", kind=2, id=1, useqs=[[sense, 3 * ncod, "TAA"], [sense, 9, ""]], block="dtype-boundary"))
+            for kind in (4, 7):
+                cases.append(dict(k="gettrans", kind=kind, id=1, useqs=[[sense, 3 * ncod, "TAA"], [sense, 3 * ncod, "AAA"]],
+                                  block="dtype-boundary"))
     if tier == "thorough":
         for n in (3 * 65535, 3 * 65536, 3 * 65536 + 2):
             for v in VS:
